@@ -518,6 +518,30 @@ func compressedCertMuts() []fieldMut {
 			body = append(body, randBytes(rg, 20)...)
 			return hsMsg(25, body)
 		}},
+		{"cc_of_mutated_certificate", func(rg *rand.Rand, m []byte, ch *wire.ClientHello) []byte {
+			// a perfectly valid compression (advertised algorithm, right declared length) of a
+			// hostile Certificate message: empty list, zero-length entry, garbage DER, ...
+			body := certBody(m)
+			if body == nil {
+				return nil
+			}
+			inner := certificate13Muts()
+			mm := inner[rg.Intn(len(inner))].f(rg, hsMsg(11, body), ch)
+			if mm == nil || len(mm) < 4 {
+				return nil
+			}
+			alg := uint16(0)
+			if len(ch.CertCompAlgs) > 0 {
+				alg = ch.CertCompAlgs[rg.Intn(len(ch.CertCompAlgs))]
+			} else {
+				alg = []uint16{1, 2, 3}[rg.Intn(3)]
+			}
+			comp, err := compress(alg, mm[4:], compOpts{})
+			if err != nil {
+				return nil
+			}
+			return compressedCertificateMsg(alg, len(mm)-4, comp)
+		}},
 		{"cc_twice", func(rg *rand.Rand, m []byte, ch *wire.ClientHello) []byte {
 			body := certBody(m)
 			if body == nil {
